@@ -356,10 +356,10 @@ def run(chk):
 def bounded(chk):
     from props import c15_replay
     t0 = time.time()
-    rp = c15_replay.replay(dict(engine="ARNOLDI", part="bounded"))
+    rp = c15_replay.replay(dict(engine="ARNOLDI", part="bounded", tier=chk.tier), timeout=1800)
     ok = rp.get("replayed") and not rp.get("failing_input_found")
     ob = Ob(key="C15/arnoldi/orthonormal Q with first column v/||v||, upper Hessenberg H with non-negative sub-diagonal, A Q[:, :m] = Q H, more than n steps = n steps, "
-                "arnoldi_eigs returns the spectrum/bounded(n<=30)",
+                "arnoldi_eigs returns the spectrum/bounded(n<=30; thorough: n<=50)",
             fn=FN + "arnoldi", clause="Arnoldi theorem on the real code", engine="BOUNDED", status=DISCHARGED if ok else FAILED,
             backend="real code on concrete operators (n <= 30; real non-symmetric, complex, normal and non-normal; invariant-subspace starts)",
             secs=time.time() - t0, bounded=True, detail=str({k: v for k, v in rp.items() if k != "replayed"})[:400])
